@@ -101,7 +101,7 @@ func runC20(r *Run) {
 	}
 	// a CA file may hold a BUNDLE (old and new CA side by side while a rotation is rolled out): every certificate in it is trusted
 	content := map[string][]byte{"CA-A": caA.pem, "CA-B": caB.pem, "CA-A+CA-B": append(append([]byte{}, caA.pem...), caB.pem...),
-"junk": []byte("this is not PEM"), "": {}}
+		"junk": []byte("this is not PEM"), "": {}}
 	inBundle := func(bundle, ca string) bool { return strings.Contains("+"+bundle+"+", "+"+ca+"+") }
 	servers := map[string]*testCA{"CA-A": caA, "CA-B": caB, "-": caC}
 	dir := filepath.Join(r.Out, "tls")
